@@ -65,7 +65,8 @@ def floors(tier):
   k = 1 if tier == 'quick' else 12
   f = {}
   for p in ('generalized', 'spring', 'positional'):
-    f['ev:batch_equals_solo:' + p] = 8 * k
+    # generalized members with an active solver row are recorded, not asserted
+    f['ev:batch_equals_solo:' + p] = (4 if p == 'generalized' else 8) * k
     f['ev:members_independent:' + p] = 8 * k
   f['ev:eager_equals_jit'] = 2 * (1 if tier == 'quick' else 10)
   f['ev:wrapped_batch_equals_solo:scripted'] = 6 * k
